@@ -1,4 +1,40 @@
-import CV.Model.Core.Machine
+import CV.Proofs.CoreMatch
+/-
+C01 - matching layer.  `collect` is the model of `Manager.getHandlers`; the dispatcher calls
+it with fuel `comps.length + 1` whenever it rebuilds a cache entry.  These theorems say that
+its result is exactly the handler set of the property statement, each handler once.
+(The cache-liveness invariant - the set *used* at dispatch is this set, also after
+detaching - is a machine-level invariant; see DESIGN.md section 0.4.)
+-/
 namespace CV.C01
-theorem placeholder : True := trivial
+open CV.Core
+
+/-- a handler is collected for `(name, target)` from `root` **iff** it belongs to a component
+    reachable from `root` through at most `n` child links and either is installed for `name`
+    (or for all events) with a matching channel - equal, either side `'*'`, or the target is the
+    component itself - or is a global handler of that component -/
+theorem collect_iff (s : St) (n root : Nat) (name : Name) (target : Chan) (h : Nat) :
+    h ∈ collect s (n + 1) root name target ↔
+      ∃ d, ReachIn s n root d ∧ matchesAt s d name target h :=
+  mem_collect s name target h n root
+
+/-- ... and exactly once -/
+theorem collect_once (s : St) (fuel root : Nat) (name : Name) (target : Chan) :
+    (collect s fuel root name target).Nodup :=
+  collect_nodup s fuel root name target
+
+/-- the channel rule of the statement, spelled out -/
+theorem chanOk_iff (compChan : Chan) (c : Nat) (hd : Handler) (target : Chan) :
+    chanOk compChan c hd target = true ↔
+      target = .star ∨ hd.chan.getD compChan = .star ∨ hd.chan.getD compChan = target ∨ target = .inst c := by
+  simp [chanOk, or_assoc]
+
+/-- non-vacuity: a two-level tree where the grandchild's handler is found through the child -/
+example :
+    let s : St := { comps := [{ parent := 0, root := 0, children := [1] },
+                              { parent := 0, root := 0, children := [2] },
+                              { parent := 1, root := 0, htab := [(some ⟨1, []⟩, 0)] }],
+                    hs := [{ owner := 2, names := [⟨1, []⟩], chan := none, kind := .user 0 }] }
+    collect s 4 0 ⟨1, []⟩ (.named 7) = [0] := by decide
+
 end CV.C01
